@@ -104,6 +104,12 @@ def run(ctx):
                     cases.append({"fn": "angle_sequence", "p": [hexf(x) for x in p], "eps": hexf(eps), "suc": hexf(suc),
                                   "bits": [0], "shape": shape, "family": True, "timeout": 300,
                                   "perturb": hexf(eps * rng.choice([4, 10, 100]))})
+                if rng.random() < 0.6:
+                    # marginal faults: shifts of 0.3..1.2 eps put the true error next to the acceptance threshold (a final test that
+                    # measures against a drifted reference, or counts only part of the capitalisation, accepts some of these)
+                    for mult in rng.sample([0.3, 0.5, 0.7, 0.9, 1.2], 3):
+                        cases.append({"fn": "angle_sequence", "p": [hexf(x) for x in p], "eps": hexf(eps), "suc": hexf(suc),
+                                      "bits": [rng.randint(0, 1)], "shape": shape, "family": True, "timeout": 300, "perturb": hexf(eps * mult)})
                 cases.append({"fn": "angle_sequence", "p": [hexf(x) for x in p], "eps": hexf(eps), "suc": hexf(suc),
                               "npseed": rng.randrange(2 ** 31), "shape": shape, "family": True, "timeout": 300})
         # directed: the capitalisation eps/4 cancels (or nearly cancels) an extreme coefficient
